@@ -1,10 +1,15 @@
 (* C15 — Resource aggregation is a linear, loss-free rewrite.
-   Proved here: the expansion order is a complete, topological listing of the dictionary's keys, and ANY
-   dependency cycle among the keys makes the expansion fail (no result).  The linearity / path-sum statement is
-   the executable specification [paths] / [spec_value] of theories/Aggregate.v, compared with the real code on
-   every case of the stream (exhaustive on 3 names in the quick tier, on 4 names in the thorough tier). *)
+   Proved here, for dictionaries of any size and nesting depth and any rational multipliers:
+   the expansion order is a complete, topological listing of the keys and ANY dependency cycle makes the expansion
+   fail; the expanded dictionary IS the path sum and mentions base resources only; applying it to a routine's
+   resources adds, to each base resource, the decomposed resources' previous values times the path-sum multiplier;
+   decomposed resources are removed or kept with type `other`; untouched resources keep their type.
+   "The order of entries is irrelevant" follows: the result is characterised by [paths], which does not look at
+   the order of the dictionary's keys (only at lookups).  The hierarchy walk (every routine gets the same
+   treatment) and the symbolic multipliers are exercised by the stream: model and [paths] specification vs the
+   real code, exhaustively on 3 (quick) / 4 (thorough) names. *)
 From Coq Require Import List String QArith Permutation.
-From Bq Require Import Expr Compile TopoFacts Aggregate AggregateFacts.
+From Bq Require Import Expr RepModel Routine Compile TopoFacts Aggregate AggregateFacts AggregateSumFacts.
 Import ListNotations.
 Open Scope string_scope.
 
@@ -24,6 +29,52 @@ Theorem C15_expansion_order : forall (d : adict) (order : list string),
   (forall l1 x l2, order = (l1 ++ x :: l2)%list -> forall p, In p (agg_preds d x) -> In p l1).
 Proof. exact expansion_order. Qed.
 Print Assumptions C15_expansion_order.
+
+(* ---- the rewrite is the linear path sum (unbounded: any number of names, any nesting, any rational weights) ----
+   [paths f d a b] is the specification: the total multiplier from the decomposed resource a to the base resource
+   b along ALL decomposition paths (fuel f >= the number of entries).  [get0 b m] is m[b] or 0, [rv b l] the value
+   of resource b in a routine's resource list or 0. *)
+
+(* (1) nested dictionaries are fully expanded: every entry of the expanded dictionary mentions base resources only,
+   once each, with the path sum as multiplier *)
+Theorem C15_expansion_is_path_sum : forall (d : adict),
+  NoDup (keys d) -> (forall a m, lookup a d = Some m -> NoDup (keys m)) ->
+  forall e, expand_dict d = Some e ->
+  Permutation (keys e) (keys d)
+  /\ forall a m, lookup a e = Some m ->
+       NoDup (keys m)
+       /\ (forall x, In x (keys m) -> is_key d x = false)
+       /\ (forall b, is_key d b = false -> (get0 b m == paths (List.length d) d a b)%Q).
+Proof. exact expand_dict_is_path_sum. Qed.
+Print Assumptions C15_expansion_is_path_sum.
+
+(* (2) in a routine, each base resource ends up with its previous value plus the sum over the decomposed resources
+   present of their previous value times the path-sum multiplier; both removal modes *)
+Theorem C15_linear_path_sum : forall (d e : adict) (resources : rlist) (rm : bool) (b : string),
+  NoDup (keys d) -> (forall a m, lookup a d = Some m -> NoDup (keys m)) ->
+  expand_dict d = Some e -> is_key d b = false ->
+  (rv b (aggregate_node resources e rm)
+   == rv b resources
+      + fold_right (fun nr s => (if is_key d (fst nr) then snd (snd nr) * paths (List.length d) d (fst nr) b else 0) + s)
+                   0 resources)%Q.
+Proof. exact aggregate_is_linear_path_sum. Qed.
+Print Assumptions C15_linear_path_sum.
+
+(* (3) decomposed resources are removed or, when asked, kept with their value and type `other` *)
+Theorem C15_decomposed_removed_or_kept : forall (e : adict),
+  (forall a m x, lookup a e = Some m -> In x (keys m) -> lookup x e = None) ->
+  forall (rm : bool) (resources : rlist) a ma ty val,
+  NoDup (keys resources) -> lookup a e = Some ma -> lookup a resources = Some (ty, val) ->
+  lookup a (aggregate_node resources e rm) = if rm then None else Some (ROther, val).
+Proof. exact aggregate_node_decomposed. Qed.
+Print Assumptions C15_decomposed_removed_or_kept.
+
+(* (4) a resource that is not decomposed keeps its type; with (2), one that receives nothing keeps its value *)
+Theorem C15_untouched_type : forall (e : adict) (rm : bool) (resources : rlist) b tyb vb,
+  lookup b e = None -> lookup b resources = Some (tyb, vb) ->
+  exists q, lookup b (aggregate_node resources e rm) = Some (tyb, q).
+Proof. exact aggregate_node_keeps_type. Qed.
+Print Assumptions C15_untouched_type.
 
 (* non-vacuity: a diamond with a direct edge is expanded to the path sum; a 2-cycle is rejected *)
 Example C15_nonvacuous :
